@@ -7,7 +7,9 @@ only and the normalisation has the quotient form (C08.b); lock names are injecti
 cache and tile (C08.c); every bundle mutation happens under the bundle lock (C08.d).
 Added in round 4: every walk over / write to the shared table of per-level databases holds the table
 lock (C08.h); tiles stored by a concurrent request between the batch load and the existence check
-are loaded afterwards (C08.i)."""
+are loaded afterwards (C08.i).
+Added in round 5: renderd front end and back end use different tile lock ids (C08.j); the record is
+appended before the index entry is set (C08.k, shared C06.c)."""
 import ast
 
 from ..engine import rule
